@@ -115,7 +115,7 @@ func genURLish(rnd *rand.Rand) string {
 	b.WriteString(pick("", "/", "//", "///", "\\\\", "/\\", "////", "\\/"))
 	if rnd.Intn(3) == 0 {
 		b.WriteString(genString(rnd, 2))
-		b.WriteString(pick("@", ":@", "@", ":" + genString(rnd, 1) + "@"))
+		b.WriteString(pick("@", ":@", "@", ":"+genString(rnd, 1)+"@"))
 	}
 	b.WriteString(genString(rnd, 3))
 	if rnd.Intn(3) == 0 {
@@ -486,6 +486,9 @@ func TestDifferentialAgainstNode(t *testing.T) {
 			// node aborted while processing cases[len(results)].
 			cj, _ := json.Marshal(cases[len(results)])
 			first := strings.SplitN(strings.TrimSpace(string(out)), "\n", 3)
+			if len(first) > 2 {
+				first = first[:2]
+			}
 			t.Logf("node itself crashed (%v) on %s: %s", runErr, cj, strings.Join(first, " | "))
 			results = append(results, map[string]interface{}{"crashed": true})
 			crashed++
